@@ -64,6 +64,10 @@ class Put:
         self.pgno, self.subcode, self.rows, self.flags = pgno, subcode, rows, flags
         self.packets = page_packets(pgno, subcode, rows, flags)
 
+    def rows_text(self):
+        """the transmitted row texts joined by newlines (generator-side inspection only)"""
+        return "\n".join(t if isinstance(t, str) else "".join(chr(b & 0x7F) for b in t) for _, t in self.rows)
+
 
 def resolve(cases, run_harness):
     """cases: lists whose items are op strings or Put objects.  Runs the real code once over the
